@@ -15,6 +15,8 @@ RULE = ('documents: 3 tables, each with a Ref column R and a RefList column L wh
         'another table, re-defined, or never defined), positive, dangling and 0 ids and alt text; plus direct calls of '
         'ActionSummary.update_new_rows_map/translate_new_row_ids on random argument lists; a bundle is non-trivial '
         'when a temporary id defined by an add is used later in the bundle or an unresolved negative id occurs. '
+        'About 12% of the bundles name a row added in the bundle both by its temporary and by its allocated id (and repeatedly) '
+        'inside one bulk update/removal, the last occurrence restating the stored value, with no other column set. '
         'Add requests also hold explicit ids in any position and, rarely, 0 or a repeated explicit id (rejected).')
 TRUSTED = ['tmp2v translator (harness/tmp2v.py): update_new_rows_map, translate_new_row_ids, _reject_unresolved_temp_ids, '
            'Reference[List]Column.prepare_new_values and the row-id preparation of doBulkUpdateRecord / doBulkRemoveRecord '
@@ -30,7 +32,7 @@ TRUSTED = ['tmp2v translator (harness/tmp2v.py): update_new_rows_map, translate_
            'engine rollback after an exception (C04) is observed on the implementation, not modelled']
 ASSUMPTIONS = ['in an update that names a row more than once only the last occurrence counts (fix 060dc6b): values of the '
                'earlier occurrences are overridden within the action and are not checked',
-               'every generated update sets column A to a value not stored anywhere, so trim_update_action never drops '
+               'every generated update (except the alias bundles, whose rows all exist) sets column A to a value not stored anywhere, so trim_update_action never drops '
                'a row and an update of a missing row always reaches the doc action\'s assertion',
                'no two-way reference columns and no formula columns in the generated documents']
 
@@ -179,6 +181,47 @@ def gen_bundle(rng, sch, doc):
   return acts
 
 
+def gen_alias_bundle(rng, sch, doc):
+  """A row added in the bundle is named, inside ONE bulk update / removal, both by its temporary id and by the id
+  that will be allocated for it (and repeatedly).  In the update the last occurrence restates the stored value and an
+  earlier one differs; no other column is set, so that trim_update_action sees exactly these values."""
+  t = rng.randrange(NT)
+  existing = [i for (i, _r, _l) in doc[t]]
+  nxt = max(existing + [0]) + 1
+  ids_new = rng.choice([[-1], [-2, -1], [None, -1], [-1, -3]])
+  k = rng.randrange(len(ids_new))
+  while ids_new[k] is None:
+    k = rng.randrange(len(ids_new))
+  a, r = ids_new[k], nxt + k                  # all slots automatic: ids nxt, nxt+1, ... in request order
+  def refv():
+    return rng.choice([0, 1, 2, 3, 5, 8, TXT[0]])
+  def listv():
+    return rng.choice([None, [1], [2, 3], [5, 5, 1], TXT[1]])
+  v0, l0 = refv(), listv()
+  useR, useL = rng.random() < 0.8, rng.random() < 0.5
+  if not (useR or useL):
+    useR = True
+  acts = [{'op': 'add', 't': t, 'ids': list(ids_new),
+           'R': [v0 if j == k else refv() for j in range(len(ids_new))],
+           'L': [l0 if j == k else listv() for j in range(len(ids_new))]}]
+  pattern = rng.choice([[a, r], [r, a], [a, r, a], [r, a, r], [a, a], [r, r], [a, 'x', r], [r, 'x', a]])
+  other = rng.choice(existing) if existing else None
+  ids = [other if x == 'x' else x for x in pattern if not (x == 'x' and other is None)]
+  last = max(j for j, x in enumerate(ids) if x in (a, r))
+  def differing(stored, gen):
+    for _ in range(20):
+      v = gen()
+      if v != stored:
+        return v
+    return stored
+  R = [(v0 if j == last else differing(v0, refv)) if x in (a, r) else refv() for j, x in enumerate(ids)] if useR else None
+  L = [(l0 if j == last else differing(l0, listv)) if x in (a, r) else listv() for j, x in enumerate(ids)] if useL else None
+  acts.append({'op': 'update', 't': t, 'ids': ids, 'R': R, 'L': L, 'noA': True})
+  if rng.random() < 0.4:
+    acts.append({'op': 'remove', 't': t, 'ids': rng.choice([[a, r], [r, a], [r, a, a], [a]]), 'R': None, 'L': None})
+  return acts
+
+
 def nontrivial(acts, sch):
   defined = {t: set() for t in range(NT)}
   hit = False
@@ -263,8 +306,9 @@ class Docs(object):
         else:
           out.append(['BulkAddRecord', tn, list(a['ids']), cols])
       elif a['op'] == 'update':
-        self.counter += n
-        cols['A'] = [self.counter - k for k in range(n)]       # never stored before: nothing is trimmed
+        if not a.get('noA'):
+          self.counter += n
+          cols['A'] = [self.counter - k for k in range(n)]       # never stored before: nothing is trimmed
         if n == 1 and a.get('single'):
           out.append(['UpdateRecord', tn, a['ids'][0], {c: v[0] for c, v in cols.items()}])
         else:
@@ -407,13 +451,16 @@ def gen_cases(ctx):
     ([(1, 1), (1, 0), (0, 0)], [[(1, 0, None)], [(1, 0, None)], []],
      [{'op': 'remove', 't': 0, 'ids': [-5], 'R': None, 'L': None, 'single': True}]),
   ]
+  fixed.append(([(1, 1), (1, 0), (0, 0)], [[(1, 0, None), (2, 0, None)], [(1, 0, None)], []],
+                [{'op': 'add', 't': 0, 'ids': [-1], 'R': [1], 'L': None},
+                 {'op': 'update', 't': 0, 'ids': [-1, 3], 'R': [0, 1], 'L': None, 'noA': True}]))
   for sch, doc, acts in fixed:
     cases.append((sch, doc, acts))
   schemas = [gen_schema(rng) for _ in range(ctx.n(4, 10))]
   for _ in range(ctx.n(450, 6000)):
     sch = rng.choice(schemas)
     doc = gen_doc(rng)
-    acts = gen_bundle(rng, sch, doc)
+    acts = gen_alias_bundle(rng, sch, doc) if rng.random() < 0.12 else gen_bundle(rng, sch, doc)
     for a in acts:
       a['single'] = rng.random() < 0.5
     cases.append((sch, doc, acts))
